@@ -23,7 +23,13 @@ type SQLTable struct {
 	Style   string // placeholder style the engine accepts: "?", "$", ":"
 	Rows    []sqlRow
 	Queries []string
+	// FailNext injects one failure into the next statement: "query" (the statement is refused), "rows" (the statement is accepted and
+	// the connection drops while the first row is fetched), "exec" (the insert is refused with a transport error, nothing is written)
+	FailNext string
 }
+
+// ErrInjected is the transport failure injected through FailNext.
+var ErrInjected = errors.New("injected: connection lost")
 
 type sqlRow struct {
 	id      string
@@ -101,6 +107,10 @@ func (c *sqlConn) ExecContext(_ context.Context, q string, args []driver.NamedVa
 	c.t.mu.Lock()
 	defer c.t.mu.Unlock()
 	c.t.Queries = append(c.t.Queries, q)
+	if c.t.FailNext == "exec" {
+		c.t.FailNext = ""
+		return nil, ErrInjected
+	}
 	m := reInsert.FindStringSubmatch(q)
 	if m == nil {
 		return nil, fmt.Errorf("unsupported statement: %s", q)
@@ -159,6 +169,11 @@ func (c *sqlConn) QueryContext(_ context.Context, q string, args []driver.NamedV
 	c.t.mu.Lock()
 	defer c.t.mu.Unlock()
 	c.t.Queries = append(c.t.Queries, q)
+	fail := c.t.FailNext
+	c.t.FailNext = ""
+	if fail == "query" {
+		return nil, ErrInjected
+	}
 	m := reSelect.FindStringSubmatch(q)
 	if m == nil {
 		return nil, fmt.Errorf("unsupported query: %s", q)
@@ -229,17 +244,21 @@ func (c *sqlConn) QueryContext(_ context.Context, q string, args []driver.NamedV
 			hit = hit[:n]
 		}
 	}
-	return &sqlRows{rows: hit}, nil
+	return &sqlRows{rows: hit, fail: fail == "rows"}, nil
 }
 
 type sqlRows struct {
 	rows []sqlRow
 	pos  int
+	fail bool // the connection drops while the first row is fetched
 }
 
 func (r *sqlRows) Columns() []string { return []string{"key_record"} }
 func (r *sqlRows) Close() error      { return nil }
 func (r *sqlRows) Next(dest []driver.Value) error {
+	if r.fail {
+		return ErrInjected
+	}
 	if r.pos >= len(r.rows) {
 		return io.EOF
 	}
